@@ -491,3 +491,169 @@ def r_byte_budget(ck, P, rid, tail=False):
                     ck.violation(R, f.name, 'smallest unconditional step', '%s accepts %d bpp (%d-byte pixels) but its smallest step without an alignment condition moves %d bytes: a row whose byte count is not a multiple of %d keeps its last byte(s) unwritten while TRUE is returned' % (f.name, min(acc), unit, min(unaligned), min(unaligned)), '%s:%d' % (f.unit.name, f.line))
                 else:
                     ck.ok(R, '%s: smallest unconditional step %d bytes <= smallest accepted pixel %d bytes' % (f.name, min(unaligned), unit))
+
+
+class _Bits:
+    """bit provenance of integer expressions over one parameter: each bit is 0, 1, ('in', k) or None (unknown)"""
+
+    def __init__(self, f, src_arg, reach):
+        self.f = f; self.src = src_arg; self.reach = reach; self.memo = {}
+
+    def width(self, ty):
+        w = _ty_bytes(ty)
+        return w * 8 if w else None
+
+    def const(self, v, w):
+        return [(v >> k) & 1 for k in range(w)]
+
+    def ev(self, o, w=None, depth=0):
+        f = self.f
+        if depth > 60:
+            return None
+        if o[0] == 'c':
+            return self.const(int(o[1]), w or (o[2] if len(o) > 2 else 32))
+        if o[0] == 'a':
+            if o[1] == self.src:
+                return [('in', k) for k in range(32)]
+            return None
+        if o[0] != 'v':
+            return None
+        if o[1] in self.memo:
+            return self.memo[o[1]]
+        x = f.by_id[o[1]]
+        self.memo[x.i] = None
+        r = self._ev(x, depth)
+        self.memo[x.i] = r
+        return r
+
+    def _ev(self, x, depth):
+        f = self.f
+        w = self.width(x.ty)
+        op = x.op
+        if op == 'phi':
+            live = [a for a, bb in zip(x.a, x.d['bb']) if bb in self.reach]
+            vals = [self.ev(a, w, depth + 1) for a in live]
+            if not vals or any(v is None for v in vals):
+                return None
+            out = []
+            for k in range(len(vals[0])):
+                s = {tuple(v[k]) if isinstance(v[k], tuple) else v[k] for v in vals}
+                out.append(vals[0][k] if len(s) == 1 else None)
+            return out
+        if op in ('zext', 'trunc', 'bitcast', 'freeze'):
+            v = self.ev(x.a[0], None, depth + 1)
+            if v is None or w is None:
+                return None
+            return (v + [0] * w)[:w]
+        if op in ('and', 'or', 'xor', 'shl', 'lshr', 'mul'):
+            a = self.ev(x.a[0], w, depth + 1); b = self.ev(x.a[1], w, depth + 1)
+            if a is None or b is None or w is None:
+                return None
+            a = (a + [0] * w)[:w]; b = (b + [0] * w)[:w]
+            isc = lambda v: all(q in (0, 1) for q in v)
+            num = lambda v: sum(q << k for k, q in enumerate(v))
+            if op == 'and':
+                return [0 if (p == 0 or q == 0) else q if p == 1 else p if q == 1 else p if p == q else None for p, q in zip(a, b)]
+            if op == 'or':
+                return [1 if (p == 1 or q == 1) else q if p == 0 else p if q == 0 else p if p == q else None for p, q in zip(a, b)]
+            if op == 'xor':
+                return [q if p == 0 else p if q == 0 else (1 - q) if (p == 1 and q in (0, 1)) else 0 if (p == q and p is not None and not isinstance(p, tuple)) else None for p, q in zip(a, b)]
+            if op in ('shl', 'lshr'):
+                if not isc(b):
+                    return None
+                n = num(b)
+                if n >= w:
+                    return [0] * w
+                return ([0] * n + a)[:w] if op == 'shl' else (a[n:] + [0] * n)
+            if op == 'mul':
+                if isc(a):
+                    a, b = b, a
+                if not isc(b):
+                    return None
+                c = num(b)
+                out = [0] * w
+                for sh in range(w):
+                    if (c >> sh) & 1:
+                        cp = ([0] * sh + a)[:w]
+                        for k in range(w):
+                            if cp[k] == 0:
+                                continue
+                            if out[k] == 0:
+                                out[k] = cp[k]
+                            else:
+                                # overlapping copies: a sum with possible carries - this bit and everything above it is unknown
+                                for k2 in range(k, w):
+                                    out[k2] = None
+                                break
+                return out
+        if op == 'call' and x.callee in ('create_mask_2x32_128',):
+            hi = self.ev(x.a[0], 32, depth + 1); lo = self.ev(x.a[1], 32, depth + 1)
+            if hi is None or lo is None:
+                return None
+            return (lo + hi) * 2
+        if op == 'call' and x.callee in ('_mm_set_epi32',):
+            vs = [self.ev(a, 32, depth + 1) for a in x.a[:4]]
+            if any(v is None for v in vs):
+                return None
+            return vs[3] + vs[2] + vs[1] + vs[0]
+        if op == 'call' and x.callee in ('_mm_set1_epi32',):
+            v = self.ev(x.a[0], 32, depth + 1)
+            return v * 4 if v else None
+        if op == 'call' and x.callee in ('to_m64', '_mm_cvtsi64_m64', '_mm_cvtsi64_si64'):
+            return self.ev(x.a[0], 64, depth + 1)
+        return None
+
+
+def r_fill_word(ck, P, rid):
+    """T-BIT: the value the byte-counted fill primitives store is the filler pixel replicated"""
+    R = ck.rule(rid, 'for every depth K a SIMD fill primitive accepts, every store of at least K bits in its row loop writes the low K bits of the filler argument replicated (bit j = filler[j mod K]): high bits of the argument never leak into neighbouring pixels', floor=10)
+    slots = slot_functions(P)
+    for un, f in sorted(slots['fill'].items()):
+        fa = [i for i, (pn, pt) in enumerate(f.params) if pn == 'filler']
+        bp = _bpp_params(f)
+        if not fa or not bp:
+            continue
+        steps = [x for x in f.insts() if x.op == 'sub' and x.dv == 'w'] + [x for x in f.insts() if x.op == 'add' and x.dv == 'w']
+        if not steps:
+            continue                       # pixel-indexed portable fills: each store is one pixel of its own type
+        ck.saw(f)
+        acc = accept_set(P, f, bp, _ptr_params(f))
+        for K in sorted(acc):
+            reach = specialised_reach(f, {bp[0]: K})
+            B = _Bits(f, fa[0], reach)
+            reported = set()
+            for x in f.insts():
+                if x.bb.id not in reach:
+                    continue
+                val = None
+                if x.op == 'store' and x.a[0][0] in ('v', 'a'):
+                    pt = f.by_id[x.a[1][1]].ty if x.a[1][0] == 'v' else ''
+                    wbytes = _ty_bytes(pt)
+                    base, off = _ptr_off(f, x.a[1])
+                    if not wbytes or base[0] != 'v' or f.by_id[base[1]].op != 'phi' or not f.by_id[base[1]].ty.endswith('*'):
+                        continue
+                    # only stores through a row cursor that is rooted at the bits parameter
+                    if not any(r[0] == 'arg' and r[1] in _ptr_params(f) for r in common.roots(f, x.a[1])):
+                        continue
+                    val = x.a[0]; wbits = wbytes * 8
+                elif x.op == 'call' and x.callee in STORE_HELPERS:
+                    if not any(r[0] == 'arg' and r[1] in _ptr_params(f) for r in common.roots(f, x.a[0])):
+                        continue
+                    val = x.a[1]; wbits = STORE_HELPERS[x.callee] * 8
+                if val is None or wbits < K:
+                    continue
+                bits = B.ev(val, wbits)
+                where = '%s, %d bpp: %d-bit store at %s' % (f.name, K, wbits, x.loc())
+                if bits is None:
+                    ck.incomplete(R, '%s: the stored value is not an expression of the filler the rule can follow' % where); continue
+                bits = (bits + [0] * wbits)[:wbits]
+                bad = [j for j in range(wbits) if bits[j] != ('in', j % K)]
+                if bad and (wbits, K) in reported:
+                    continue
+                if bad:
+                    j = bad[0]
+                    got = bits[j]
+                    reported.add((wbits, K))
+                    ck.violation(R, f.name, '%d-bit store for %d bpp' % (wbits, K), '%s at %d bpp stores a %d-bit value whose bit %d is %s, not filler bit %d: bits of the filler argument above the pixel (or a wrong replication) reach the destination' % (f.name, K, wbits, j, 'filler bit %d' % got[1] if isinstance(got, tuple) else 'unknown (two different bits combined)' if got is None else got, j % K), x.loc())
+                else:
+                    ck.ok(R, where)
